@@ -1,10 +1,15 @@
 """C05 - fixed-size simplification is an exact-size, nested greedy refinement.
 M: MC_Fixed (ExactSize, StackIsSplittable, ResultOk for mode "fixed": rdp_fixed(k) is the length-k prefix
    of the chain, the popped segment has maximal priority among all splittable retained segments).
-T: the history rdp_fixed(points, k), k = 0..n+1, consumed event by event by Trace_Chain."""
+T: the history rdp_fixed(points, k), k = 0..n+1, consumed event by event by Trace_Chain.
+T (scale): windows of the same history on curves of 10^3 .. 10^5 points (long retained segments at small k, members of
+   thousands of indices at large k) with SPARSE tables, consumed by Trace_ChainScale (Trace_Chain's clauses and operators)."""
+import bisect
+import math
+
 import numpy as np
 
-from harness import curves, numeric, oracles, par, simpl, static_cases
+from harness import curves, numeric, oracles, par, scale, simpl, static_cases
 
 NFULL = 16     # chains are complete (k up to n+1) up to this n
 KCUT = 14      # longer curves: chain cut at this k
@@ -68,6 +73,273 @@ def inputs(ctx):
     return items
 
 
+# ---------------------------------------------------------------------------------------------------------------- scale family
+# Production-size curves.  A case is a WINDOW of the history: consecutive lengths ks = k0, k0+1, ... for one curve x distance x
+# ordering (the first member of a window is judged for exact size only, every later one as a greedy step from its predecessor).
+#   "long"  windows: k = 0..K on curves of 10^3 .. 1.1*10^5 points - the retained segments that compete have thousands of
+#           points (the ordering score and the farthest point are sums / maxima over 4096+ points);
+#   "seam"  windows: k = 2..4 on elbows of the same sizes whose corner sits on / next to 256, 1024, 4096, ..., 65536, 10^5;
+#   "deep"  windows: 3-4 consecutive lengths that straddle 256 / 1024 / 4096 or reach n+1 on curves of 10^3 .. 1.8*10^4 points -
+#           the members and the work stack have thousands of entries.
+# Curves are rebuilt from a small JSON description (so a replay file stays small); tables are sparse: one score / far set per
+# retained segment that some member of the window actually has, far sets cut down to the indices some member has.
+LONG_SEG = 4096        # a retained segment counts as long from this many points on
+SCUT = 64              # a returned member of the WRONG size is recorded by its first SCUT indices only
+SCALE_SHAPES = ("stairs", "staircase", "zigzag", "spikes", "convex_pl", "valley", "elbow", "mrc", "jitter_line", "walk")
+
+
+def _stairs(n, per, frac, h, amp, flip):
+    """The hinted shape: a fine staircase (per samples per step, height h) over the first frac*n points followed by a smooth
+    convex tail (exponential decay of amplitude amp plus a gentle slope); non-increasing.  flip: mirrored (convex part first)."""
+    la = max(per, int(n * frac) // per * per)
+    la = min(la, n - 8)
+    i = np.arange(la + 1)
+    ya = -(i // per) * float(h)
+    nt = n - la - 1
+    t = np.arange(1, nt + 1, dtype=float)
+    yb = ya[-1] - (h / (16.0 * per)) * t - amp * (1.0 - np.exp(-t / max(1.0, nt / 8.0)))
+    y = np.concatenate([ya, yb])
+    if flip:
+        y = -y[::-1]
+    return scale._xy(y - y.min())
+
+
+def _walk(n, seed, heavy):
+    """Non-increasing random walk (a measured miss-ratio curve): mostly small decrements, now and then a cliff; every retained
+    segment has its own score, so thousands of segments really compete."""
+    r = np.random.RandomState(seed)
+    d = r.exponential(1.0, n)
+    cl = r.random_sample(n) < (8.0 / n if not heavy else 64.0 / n)
+    d = d + cl * r.exponential(n / 16.0, n)
+    d[r.random_sample(n) < 0.3] = 0.0          # plateaus
+    y = -np.cumsum(d)
+    return scale._xy(np.round((y - y.min()) * 16.0) / 16.0)
+
+
+def _build(cv):
+    """The curve of a description {"shape": ..., "n": ..., parameters}: a deterministic function of the description."""
+    import random
+    n, sh = cv["n"], cv["shape"]
+    if sh == "stairs":
+        return _stairs(n, cv["per"], cv["frac"], cv["h"], cv["amp"], cv["flip"])
+    if sh == "walk":
+        return _walk(n, cv["seed"], cv["heavy"])
+    if sh == "staircase":
+        return scale.staircase(n, cv["steps"], rng=random.Random(cv["seed"]), grow=cv["grow"], jitter=cv["jitter"])
+    if sh == "zigzag":
+        return scale.zigzag(n, growth=cv["growth"])
+    if sh == "spikes":
+        return scale.spikes(n, period=cv["period"])
+    if sh == "convex_pl":
+        return scale.convex_pl(n, cv["corners"])
+    if sh == "valley":
+        return scale.valley(n, rng=random.Random(cv["seed"]))
+    if sh == "elbow":
+        return scale.elbow(n, cv["corner"], cv["s1"], cv["s2"])
+    if sh == "mrc":
+        return scale.mrc(n, random.Random(cv["seed"]), knees=cv["knees"])
+    if sh == "jitter_line":
+        return scale.jitter_line(n, cv["a"], cv["b"], cv["amp"], slope=-900.0 / n, top=1000.0)
+    raise ValueError(sh)
+
+
+def _describe(rng, sh, n):
+    """A random description of shape sh with n points."""
+    cv = {"shape": sh, "n": n}
+    if sh == "stairs":
+        cv.update(per=rng.choice([2, 3, 4, 4, 5, 8]), frac=rng.choice([0.5, 0.625, 0.72, 0.8]), h=rng.choice([0.25, 1.0, 2.0]),
+                  amp=rng.choice([2.0, 8.0, 40.0]), flip=rng.random() < 0.3)
+    elif sh == "walk":
+        cv.update(seed=rng.randrange(10 ** 6), heavy=rng.random() < 0.5)
+    elif sh == "staircase":
+        cv.update(steps=rng.choice([3, 5, 9, 17]), seed=rng.randrange(10 ** 6), grow=rng.random() < 0.4, jitter=rng.choice([0, 1, 2, 3]))
+    elif sh == "zigzag":
+        cv.update(growth=rng.choice([1.0 / 64, 1.0 / 1024, 1.0 / 8]))
+    elif sh == "spikes":
+        cv.update(period=rng.choice([2, 3, 4, 7, 16]))
+    elif sh == "convex_pl":
+        cv.update(corners=rng.choice([2, 5, 11]))
+    elif sh == "valley":
+        cv.update(seed=rng.randrange(10 ** 6))
+    elif sh == "elbow":      # the farthest point sits on / next to a typical block seam when the curve is long enough
+        seams = [t + o for t in scale.THRESHOLDS for o in (-1, 0, 1) if 2 <= t + o <= n - 3]
+        cv.update(corner=rng.choice(seams) if seams else n // 3, s1=rng.choice([-2.0, -0.5, 4.0]), s2=rng.choice([-0.125, 0.25, -0.0078125]))
+    elif sh == "mrc":
+        cv.update(seed=rng.randrange(10 ** 6), knees=rng.choice([3, 6, 12]))
+    elif sh == "jitter_line":
+        a = rng.randrange(0, n // 2)
+        cv.update(a=a, b=rng.randrange(a + n // 4, n), amp=rng.choice([0.5, 2.0, 8.0]))
+    return cv
+
+
+def _is_reduction(S, n):
+    return len(S) >= 2 and S[0] == 0 and S[-1] == n - 1 and all(S[j] < S[j + 1] for j in range(len(S) - 1))
+
+
+def _far_among(P, a, b, dist, cand):
+    """oracles.far_set(P, a, b, dist) cut down to the candidate indices cand (all strictly inside a..b): the same distances and
+    the same tolerance, without a Python loop over a segment of 10^5 points."""
+    pt = P[a:b + 1]
+    d = np.asarray(oracles.dist_fn(dist)(pt, pt[0], pt[-1]), float)
+    inner = d[1:-1]
+    if not np.all(np.isfinite(inner)):
+        return list(cand)
+    sc = max(float(np.max(np.abs(pt - pt[0]))), 1e-300)
+    mx = float(inner.max())
+    tol = max(numeric.REL * mx, 1e-12 * sc, float(np.finfo(float).eps))
+    return [c for c in cand if d[c - a] >= mx - tol]
+
+
+def _record_scale(item):
+    """One window: the events and the SPARSE tables (rows only for the retained segments some member of the window has)."""
+    cid, cv, dist, order, dtype, ks = item
+    P = _build(cv)
+    n = len(P)
+    if dtype == "int64" and not simpl.integral(P):
+        dtype = None
+    events, members = [], []
+    for k in ks:
+        # hang protection: simpl.call's default budgets grow like n^2 (monitor.quad(n, 16) back-edges in total, 8n+64 steps of
+        # the refinement loop, 20 s * n^2 / 250000 of CPU time); an unchanged call at k = 4100 uses about 8200 back-edges
+        ev = simpl.call(P, {"f": "rdp_fixed", "length": k, "distance": dist, "order": order, "dtype": dtype})
+        S = ev.get("reduced", []) if ev["outcome"] == "returned" else []
+        size, want = len(S), min(max(k, 2), n)
+        if len(S) != want and len(S) > SCUT:
+            S = S[:SCUT]          # a member of the wrong size fails exact-size whatever it holds: do not ship 10^5 indices
+        events.append({"k": k, "outcome": ev["outcome"], "S": S, "size": size})
+        if ev["outcome"] == "returned" and _is_reduction(S, n):
+            members.append(S)
+    U = sorted(set(x for S in members for x in S)) or [0, n - 1]
+    segs = sorted(set((a, b) for S in members for a, b in zip(S, S[1:]) if b - a >= 2))
+    scores = [oracles.order_score(P, a, b, order, dist) for a, b in segs]
+    # the check's noise policy (oracles.score_ranks), the relative part widened for sums over n terms
+    yscale = max(float(np.max(np.abs(P[:, 1]))), float(np.max(np.abs(P[:, 0] - P[0, 0]))), 1.0)
+    mx = max([abs(s) for s in scores if not math.isnan(s)] + [0.0])
+    rk = numeric.ranks(scores, rel=max(numeric.REL, 8 * n * float(np.finfo(float).eps)),
+                       ab=max(1e-12 * yscale * yscale, 1e-13 * mx)) if scores else []
+    far = [_far_among(P, a, b, dist, U[bisect.bisect_right(U, a):bisect.bisect_left(U, b)]) for a, b in segs]
+    # what the window exercised (evidence only)
+    steps = longsteps = 0
+    for S, T in zip(members, members[1:]):
+        if len(T) == len(S) + 1:
+            steps += 1
+            sp = [b - a + 1 for a, b in zip(S, S[1:]) if b - a >= 2]
+            if len(sp) >= 2 and max(sp) >= LONG_SEG:
+                longsteps += 1
+    case = {"id": cid, "n": n, "events": events, "segs": [[a, b, r, f] for (a, b), r, f in zip(segs, rk, far)]}
+    meta = {"kind": "T-scale", "curve": cv, "distance": dist, "order": order, "dtype": dtype, "ks": list(ks)}
+    stats = {"n": n, "steps": steps, "longsteps": longsteps, "kmax": max(len(S) for S in members) if members else 0,
+             "segs": len(segs)}
+    return case, meta, stats
+
+
+def _scale_items(ctx):
+    rng = ctx.rng
+    combos = [(d, o) for d in simpl.DISTANCES for o in simpl.ORDERS]
+    items = []
+
+    def add(tag, cv, d, o, ks):
+        dtype = None
+        if cv["shape"] in ("staircase", "convex_pl", "valley") and rng.random() < 0.3:
+            dtype = "int64"            # integral ordinates by construction (the worker drops the request if they are not)
+        items.append(("%s%d-%s-n%d-%s-%s" % (tag, len(items), cv["shape"], cv["n"], d, o), cv, d, o, dtype, ks))
+
+    # long windows: k = 0..K, every distance x ordering, the hinted shape on every size plus a sample of the others
+    K = 12 if ctx.quick else 24
+    sizes = scale.sizes(ctx, lo=1000, hi=110000, k_quick=5, k_thorough=14)
+    for n in sizes:
+        shapes = ["stairs"] + rng.sample([s for s in SCALE_SHAPES if s != "stairs"], 2 if ctx.quick else 5)
+        if not ctx.quick:
+            shapes.append("stairs")
+        for sh in shapes:
+            cv = _describe(rng, sh, n)
+            for d, o in combos:
+                add("L", cv, d, o, list(range(0, K + 1)))
+    # seam windows: k = 2..4 on two-slope elbows whose corner (the farthest point of the first split, decisively) sits on / next
+    # to every typical block seam below n - whatever the blocks are counted from
+    for n in sizes:
+        for c in [t + o for t in scale.THRESHOLDS for o in (-1, 0, 1) if 2 <= t + o <= n - 3]:
+            cv = dict(_describe(rng, "elbow", n), corner=c)
+            d, o = rng.choice(combos)
+            add("S", cv, d, o, [2, 3, 4])
+    # deep windows: lengths that straddle 256 / 1024 / 4096 (D) and the end of the chain, k = n-2 .. n+1 (E: every segment has
+    # been split, so nothing that was ever pushed on the work stack may have been lost).  (base n, D threshold, E?, heavy?)
+    plan = [(1025, 256, True, False), (2 * 1024 + 3, 1024, False, False), (4097, None, True, True), (2 * 4096 + 3, 4096, False, True)]
+    if not ctx.quick:
+        plan += [(4097, 1024, True, False), (4097, 4096, False, True), (10001, 4096, True, True), (16385, 4096, False, True),
+                 (16385, None, True, None)]
+    for base, thr, to_end, heavy in plan:
+        n = base + rng.randrange(0, max(2, base // 8))
+        shapes = ["walk"] + rng.sample(["mrc", "staircase", "stairs", "jitter_line", "spikes", "walk"], 1 if ctx.quick else 2)
+        if heavy is None:              # a call at k = 16385 takes a good 15 s: one window
+            shapes = shapes[:1]
+        for sh in shapes:
+            cv = _describe(rng, sh, n)
+            for d, o in rng.sample(combos, (1 if heavy is None else 2 if heavy else 4) if not ctx.quick else (1 if heavy else 2)):
+                if thr is not None:
+                    add("D", cv, d, o, list(range(thr - 1, thr + (2 if heavy else 3))))
+                if to_end:
+                    add("E", cv, d, o, list(range(n - 1 if heavy in (True, None) else n - 2, n + 2)))
+    # the recording pool takes the items in order: the expensive windows (a call costs about k^2) first
+    items.sort(key=lambda it: -(len(it[5]) * (it[5][-1] ** 2 + 40 * it[1]["n"])))
+    return items
+
+
+def _to_sparse(c):
+    """the static (dense) good case in the sparse layout of Trace_ChainScale"""
+    U = c["U"]
+    segs = []
+    for p in range(len(U)):
+        for q in range(p + 1, len(U)):
+            if c["rank"][p][q] >= 0:
+                segs.append([U[p], U[q], c["rank"][p][q], c["far"][p][q]])
+    return {"id": c["id"], "n": c["n"], "events": [dict(e, size=len(e["S"])) for e in c["events"]],
+            "segs": sorted(segs, key=lambda s: (s[0], s[1]))}
+
+
+def _validate_scale(ctx, cases, selftest):
+    """Trace_ChainScale over the windows, in a few balanced batches (a JVM start costs more than judging a batch)."""
+    st = [(_to_sparse(c), cl) for c, cl in _selftests()] if selftest else None
+    nb = 1 if len(cases) < 16 else 4 if ctx.quick else 8
+    bins = [[] for _ in range(nb)]
+    for j, c in enumerate(sorted(cases, key=lambda c: -sum(len(e["S"]) for e in c["events"]))):
+        bins[j % nb].append(c)
+    ordered = [c for bn in bins for c in bn]
+    return ctx.trace("Trace_ChainScale", ordered, selftest=st, chunk=max(1, -(-(len(ordered) + len(st or [])) // nb)), procs=nb)
+
+
+def run_scale(ctx):
+    import time
+    t0 = time.time()
+    items = _scale_items(ctx)
+    rec = par.pmap(_record_scale, items, chunksize=1)
+    cases = [c for c, _, _ in rec]
+    meta = {c["id"]: m for c, m, _ in rec}
+    rej = _validate_scale(ctx, cases, selftest=True)
+    agg = {"windows": len(cases), "events": 0, "greedy_steps": 0, "steps_with_competing_segment_of_4096+_points": 0,
+           "largest_n": 0, "largest_member": 0, "table_rows": 0}
+    for c, m, st in rec:
+        agg["events"] += len(c["events"])
+        agg["greedy_steps"] += st["steps"]
+        agg["steps_with_competing_segment_of_4096+_points"] += st["longsteps"]
+        agg["largest_n"] = max(agg["largest_n"], st["n"])
+        agg["largest_member"] = max(agg["largest_member"], st["kmax"])
+        agg["table_rows"] += st["segs"]
+        ctx.count((m["curve"], m["distance"], m["order"], m["ks"][0]), st["longsteps"] > 0 or st["kmax"] > 256)
+    agg["sizes"] = sorted(set(st["n"] for _, _, st in rec))
+    agg["shapes"] = sorted(set(m["curve"]["shape"] for _, m, _ in rec))
+    agg["wall_s"] = round(time.time() - t0, 1)
+    ctx.extra["scale"] = agg
+    if rej == {} and (agg["steps_with_competing_segment_of_4096+_points"] == 0 or agg["largest_member"] <= 1024):
+        from harness import tlc
+        raise tlc.TLCFailure("scale family is vacuous: %s" % agg)
+    for cid, vs in rej.items():
+        ctx.violation(vs[0][0], meta[cid], {"verdict": vs[0], "rejected_events": len(vs), "family": "scale"})
+    lg = next((r for r in rec if r[2]["longsteps"] > 0 and r[1]["curve"]["shape"] == "stairs"), rec[0])
+    ctx.sample({"binding": "T", "family": "scale", "call": lg[1], "n": lg[2]["n"],
+                "events": [{"k": e["k"], "S": e["S"]} for e in lg[0]["events"]][-3:]})
+
+
 def _selftests():
     c = static_cases.get("C05")
     out = [(c, "ok")]
@@ -92,10 +364,18 @@ def run(ctx):
     growth.safe(ctx, growth.fixed_steps)
     ctx.rule = ("one case = the whole history rdp_fixed(points,k), k=0..n+1 (n<=16; cut at k=14 above) for one "
                 "distance x ordering; tables over all index pairs of the largest member.  non-trivial: the chain has "
-                "at least 2 greedy steps and at least two splittable segments compete at some step (n >= 5)")
+                "at least 2 greedy steps and at least two splittable segments compete at some step (n >= 5).  "
+                "scale family: windows of the same history on built curves of 10^3 .. 1.1*10^5 points (k = 0..12/24: the "
+                "competing retained segments have 4096+ points; 3-4 consecutive k around 256 / 1024 / 4096 and up to n+1: "
+                "members of thousands of indices), all distances x orderings, sparse tables (one row per retained segment "
+                "a member has); non-trivial there: a step where a 4096+ point segment competes, or a member above 256 indices")
     ctx.assumptions += numeric.ASSUMPTIONS + [
         "ordering scores (triangle = 0.5*|chord|*max distance, area = sum of distances, segment = endpoint-line RSS) "
         "are computed from the library's distance/residual primitives and noise-merged into dense ranks",
+        "scale family: tables hold one row per retained segment that some member of the window has (scores ranked among "
+        "those rows with the same noise policy, relative part max(1e-9, 8*n*eps)); far sets are cut down to the indices "
+        "some member has; curves are rebuilt from their description; a returned member of the WRONG size is recorded by "
+        "its length and its first 64 indices",
     ]
     ctx.mc("Fixed", "MC_Fixed" if ctx.quick else "MC_Fixed_6",
            need_actions=("ChainStep", "Start", "FixedStep", "FixedEnd"), timeout=1800)
@@ -121,10 +401,16 @@ def run(ctx):
                       {"verdict": vs[0], "rejected_events": len(vs)})
     sm = next(c for c in cases if c["n"] == 6)
     ctx.sample({"binding": "T", "call": meta[sm["id"]], "events": sm["events"], "U": sm["U"]})
+    run_scale(ctx)
 
 
 def replay(ctx, obj):
     c = obj["case"]
+    if c.get("kind") == "T-scale":
+        case, m, _ = _record_scale(("replay", c["curve"], c["distance"], c["order"], c.get("dtype"), c["ks"]))
+        for cid, vs in _validate_scale(ctx, [case], selftest=False).items():
+            ctx.violation(vs[0][0], c, {"verdict": vs[0], "family": "scale"})
+        return
     case, m = _record(("replay", c["points"], c["distance"], c["order"], c.get("dtype")))
     rej = ctx.trace("Trace_Chain", [case])
     for cid, vs in rej.items():
